@@ -224,6 +224,9 @@ func init() {
 			if !c.Mine(idx) {
 				continue
 			}
+			if sr.Bail() {
+				break
+			}
 			rg := eng.NewRng(c.CaseSeed(idx))
 			cfg := eng.GenConfig(rg, pickBacking(rg, "store", "store", "store", "none"), rg.Chance(1, 3))
 			gp := eng.GenParams{MinBatches: 3, MaxBatches: 10, Keys: hostileKeyPool(rg), HostileVals: true, Reopen: true, FinalReopen: true,
@@ -281,6 +284,9 @@ func init() {
 			idx := 1000000 + i
 			if !c.Mine(idx) {
 				continue
+			}
+			if sr.Bail() {
+				break
 			}
 			l := lims[i]
 			c.Progress(idx, c19Replay{Kind: "limits", Limit: &l})
